@@ -188,9 +188,9 @@ func (cx *Ctx) oracleResolutions(rs []JobResult) (bool, string, string, string) 
 		switch {
 		case rj.Adv == "overrides" && len(rj.Overrides) >= 1 && sameSite(rj.Overrides):
 			key = "order-dependent | " + rj.Overrides[0].Site
-		case (rj.Adv == r0.Adv || rj.Adv == "identity" || rj.Adv == "") && rj.T0 != r0.T0 && rj.Entropy == r0.Entropy:
+		case (rj.Adv == r0.Adv || rj.Adv == "identity" || rj.Adv == "") && (rj.T0 != r0.T0 || rj.Rate != r0.Rate) && rj.Entropy == r0.Entropy:
 			key = "clock-dependent"
-		case (rj.Adv == r0.Adv || rj.Adv == "identity" || rj.Adv == "") && rj.Entropy != r0.Entropy && rj.T0 == r0.T0:
+		case (rj.Adv == r0.Adv || rj.Adv == "identity" || rj.Adv == "") && rj.Entropy != r0.Entropy && rj.T0 == r0.T0 && rj.Rate == r0.Rate:
 			key = "entropy-dependent"
 		case (rj.Adv == r0.Adv || rj.Adv == "identity" || rj.Adv == ""):
 			key = "clock-or-entropy-dependent"
@@ -238,6 +238,9 @@ func resText(r spec.Resolution) string {
 	}
 	if r.T0 != 0 {
 		s += fmt.Sprintf(", clock T0=%d", r.T0)
+	}
+	if r.Rate != 0 {
+		s += fmt.Sprintf(", %d ns per tick", r.Rate)
 	}
 	if r.Entropy != 0 {
 		s += fmt.Sprintf(", entropy=%d", r.Entropy)
